@@ -19,8 +19,9 @@
    narrowed at exactly the places accept_failures names (none on a conforming tree: restrict _ _ []
    is the identity), are nowhere laxer than the library's tables.                                  *)
 From Coq Require Import NArith ZArith List String Bool.
-From V Require Import Base.UString Base.Json Model.SchemaTypes Spec.SchemaRefine Gen.Tables Gen.SpecTables
-     Proofs.SchemaTables.
+From V Require Import Base.UString Base.Json Model.SchemaTypes Model.PyBase Model.Schema
+     Spec.StixValid Spec.SchemaRefine Gen.Tables Gen.SpecTables
+     Proofs.SchemaTables Proofs.SchemaComplete.
 Import ListNotations.
 
 Theorem spec_refines_lib_modulo_failures :
@@ -31,3 +32,22 @@ Print Assumptions spec_refines_lib_modulo_failures.
 Theorem restrict_nothing_is_spec : restrict lib spec [] = spec.
 Proof. exact restrict_nil_spec. Qed.
 Print Assumptions restrict_nothing_is_spec.
+
+(* Per-kind completeness of Property.clean (the leaf level of spec_complete), for ARBITRARY tables: a value
+   the specification's rule for kind k' accepts (any validator fuel n, any JSON value j) is let through in
+   strict, non-interoperability mode by every library kind k that the table check relates to it
+   (kind_accepts k k' = true), without a custom flag, and serializes back to the same value (jsame:
+   equal JSON; timestamps as instants; lists element-wise).  Partial: kind_complete k = true names the
+   kinds proved so far (string-like, fixed, integer, boolean, enumeration, hexadecimal, dictionary and
+   lists of those).                                                                                *)
+Theorem clean_complete_partial :
+  forall (vr : variant) (w sp : world) (pattern_ok : ver -> ustring -> bool)
+         (rc : ustring -> bool -> bool -> list (ustring * jvalue) -> result pval)
+         (rp : bool -> bool -> list (ustring * jvalue) -> result pval)
+         (ro : ver -> list (ustring * ustring) -> bool -> list (ustring * jvalue) -> result pval)
+         (k k' : pkind) (j : jvalue) (n : nat),
+    kind_complete k = true -> kind_accepts k k' = true ->
+    valid_kind sp pattern_ok n k' j = true ->
+    exists pv, clean_kind vr w rc rp ro k false false j = Ok (pv, false) /\ jsame k' j (encode true pv).
+Proof. intros. eapply kind_complete_sound; eauto. Qed.
+Print Assumptions clean_complete_partial.
